@@ -118,6 +118,14 @@ CLAIMED = {
         technique="Lean 4 proof (structural invariants on the lock holder, per-event specifications) + exhaustive/random differential vs real send_packet on a virtual clock",
         note="partial: zigpy's _limit_concurrency is not modelled (at most 3 concurrent requests, below its limit); zigpy.util.Requests is shimmed harness-side (the installed zigpy no longer has it). ",
     ),
+    "C13": dict(
+        text="Model of ezsp_callback_handler's version-dependent unpacking, _handle_frame and _handle_tc_join_handler over decoded value lists of the C07 codec model. Theorems: decide +kernel over the generated tables of all versions 4..14 — at every position the handler unpacks, the version's incomingMessageHandler schema holds the field with that role (pre-v14 and v14 orders), "
+        "trustCenterJoinHandler has the five fields in the order the handler takes them, messageSentHandler has the two orders C12 relies on; for both argument orders and all field values exactly one packet for unicast/multicast/broadcast with source, endpoints, profile, cluster, APS sequence, payload, LQI and (two's-complement) RSSI equal to the callback's and destination own address / group ID / broadcast by message type, none for other types; "
+        "join/leave triage: departure ⇒ leave (whatever the decision), denied ⇒ nothing, otherwise join with the reported addresses and parent. Tie: generated tables and enum values + frames encoded by role from each version's schema order (independent encoder) pushed through the real EZSP.frame_received and the real ControllerApplication.ezsp_callback_handler for every version 4..14; model and property table compared with what packet_received / handle_join / handle_leave received.",
+        ref="6 C13",
+        technique="Lean 4 proof (decide +kernel over generated schemas, symbolic evaluation of the translation) + differential vs real receive path and callback handler, all versions",
+        note="The role ↔ field-name map of the two naming families is part of the trusted base. zigpy.util.Requests is shimmed to construct the application. ",
+    ),
     "C15": dict(
         text="Inductive invariant (groups distinct; every host entry programmed non-zero at its index; every free index cleared; free ∪ used covers the table) proved for every "
         "operation sequence over {start-up, subscribe, unsubscribe}, every table size, every initial table with each group at most once, every answer {OK, rejection, timeout} and every "
